@@ -37,8 +37,9 @@ def main():
     if '--tier' in sys.argv:
         tier = sys.argv[sys.argv.index('--tier') + 1]
     # ids 1-2: first seeding round (/tmp/seed-<prop>), ids 3-5: second round (/tmp/seed2-<prop>, its files 1-3)
-    j = i if int(i) <= 2 else str(int(i) - 2)
-    src = ('/tmp/seed-%s/out' if int(i) <= 2 else '/tmp/seed2-%s/out') % prop
+    # ids 6+: third round (/tmp/seed3-<prop>, its file 1)
+    j = i if int(i) <= 2 else str(int(i) - 2) if int(i) <= 5 else str(int(i) - 5)
+    src = ('/tmp/seed-%s/out' if int(i) <= 2 else '/tmp/seed2-%s/out' if int(i) <= 5 else '/tmp/seed3-%s/out') % prop
     diff = os.path.join(src, 'change_%s.diff' % j)
     demo = os.path.join(src, 'demo_%s.py' % j)
     notes = os.path.join(src, 'notes_%s.md' % j)
